@@ -23,7 +23,7 @@ for i, names in enumerate([["o"], ["no"], ["nae", "c", "b"], ["nb", "nc", "ae"],
                            ["nge", "l"], ["nl", "ge"], ["ng", "le"], ["nle", "g"]]):
     for n in names: CCMAP[n] = i
 # pure naming conventions (documented): miasmX name -> SDM name used by the spec
-ALIAS = {'sal': 'shl', 'iretd': 'iret', 'setalc': 'salc', 'icebp': 'int1', 'int1': 'int1', 'pushaw': 'pusha', 'popaw': 'popa', 'pushfw': 'pushf', 'popfw': 'popf', 'fwait': 'wait',
+ALIAS = {'pause': 'pause', 'sal': 'shl', 'iretd': 'iret', 'setalc': 'salc', 'icebp': 'int1', 'int1': 'int1', 'pushaw': 'pusha', 'popaw': 'popa', 'pushfw': 'pushf', 'popfw': 'popf', 'fwait': 'wait',
          'loopz': 'loope', 'loopnz': 'loopne', 'repz': 'rep', 'xlatb': 'xlat', 'retn': 'ret', 'int 3': 'int3'}
 
 def canon_mnem(n):
@@ -178,9 +178,11 @@ def meaningful_prefixes(sp, bs=None):
 
 def _meaningful(sp):
     """no superfluous prefix: segment override only with a memory operand, rep only on string instructions, lock only with a memory destination"""
-    has_mem = any(o[0] == 'mem' for o in sp['ops']) or sp['mnem'][:4] in ('movs', 'cmps', 'lods', 'outs')
+    string = sp['mnem'] in ('movsb', 'movsw', 'movsd', 'cmpsb', 'cmpsw', 'cmpsd', 'stosb', 'stosw', 'stosd', 'lodsb', 'lodsw', 'lodsd', 'scasb', 'scasw', 'scasd',
+                            'insb', 'insw', 'insd', 'outsb', 'outsw', 'outsd') and not any(o[0] == 'xmm' for o in sp['ops'])
+    has_mem = any(o[0] == 'mem' for o in sp['ops']) or (string and sp['mnem'][:4] in ('movs', 'cmps', 'lods', 'outs'))
     if sp['seg'] is not None and not has_mem: return False
-    if sp['rep'] is not None and sp['mnem'][:4] not in ('movs', 'cmps', 'stos', 'lods', 'scas', 'insb', 'insw', 'insd', 'outs') and not (sp['rep'] == 0xF3 and sp['mnem'] == 'nop'): return False
+    if sp['rep'] is not None and not string and not (sp['rep'] == 0xF3 and sp['mnem'] == 'nop' and not sp['ops']): return False
     if sp['lock'] and not (sp['ops'] and sp['ops'][0][0] == 'mem' and sp['mnem'] in ('add', 'or', 'adc', 'sbb', 'and', 'sub', 'xor', 'not', 'neg', 'inc', 'dec', 'xchg', 'xadd', 'cmpxchg', 'cmpxchg8b', 'bts', 'btr', 'btc')): return False
     if len(sp['prefixes']) != len(set(sp['prefixes'])): return False
     return True
